@@ -51,6 +51,9 @@ type MsgField struct {
 	TypeText string
 	Array    bool
 	Fixed    int // > 0: fixed-size array
+	// ZeroLen: a variable-length array written with the literal length 0 ("T[0]"), which the parser
+	// represents like "T[]" (an array whose FixedSize is 0)
+	ZeroLen bool
 }
 
 // Text returns the type as written, brackets included.
@@ -60,6 +63,9 @@ func (f *MsgField) Text() string {
 	}
 	if f.Fixed > 0 {
 		return f.TypeText + "[" + strconv.Itoa(f.Fixed) + "]"
+	}
+	if f.ZeroLen {
+		return f.TypeText + "[0]"
 	}
 	return f.TypeText + "[]"
 }
@@ -280,6 +286,7 @@ func RandGraph(r *rand.Rand) *Graph {
 					f.Fixed = 1 + r.Intn(5000)
 				}
 			}
+			f.ZeroLen = f.Array && f.Fixed == 0 && len(fs)%4 == 1 // (no draw from r: earlier graphs keep their shape)
 			fs = append(fs, f)
 		}
 		var targets []*MsgType
@@ -324,6 +331,7 @@ func RandGraph(r *rand.Rand) *Graph {
 				f.Array = true
 				f.Fixed = fixedSizes[r.Intn(6)]
 			}
+			f.ZeroLen = f.Array && f.Fixed == 0 && len(fs)%4 == 2
 			fs = append(fs, f)
 		}
 		r.Shuffle(len(fs), func(i, j int) { fs[i], fs[j] = fs[j], fs[i] })
